@@ -498,3 +498,145 @@ Section QueryURLs.
     - repeat constructor; try (apply Hdc; (left; reflexivity) || (right; auto)); try (apply Hfc; (left; reflexivity) || (right; auto)).
   Qed.
 End QueryURLs.
+
+(* ---------- bracketed IP-literal registries, characterised ---------- *)
+
+Lemma last_index_of_head c tl : last_index_of c (c :: tl) = Some 0%nat <-> contains c tl = false.
+Proof.
+  simpl. rewrite <- last_index_of_none. destruct (last_index_of c tl); rewrite ?N.eqb_refl; split; congruence.
+Qed.
+
+Lemma last_index_of_app c a t :
+  contains c t = false -> last_index_of c (a ++ c :: t) = Some (length a).
+Proof.
+  intro H. induction a as [|x a IH]; simpl.
+  - apply last_index_of_none in H. rewrite H, N.eqb_refl. reflexivity.
+  - now rewrite IH.
+Qed.
+
+Lemma last_index_of_after c s i : last_index_of c s = Some i -> contains c (skipn (S i) s) = false.
+Proof.
+  revert i. induction s as [|x s IH]; intros i H; [discriminate|].
+  simpl in H. destruct (last_index_of c s) as [j|] eqn:E.
+  - injection H as <-. simpl. now apply IH.
+  - destruct (x =? c); [|discriminate]. injection H as <-. simpl. now apply last_index_of_none.
+Qed.
+
+Lemma Forall_hostc_no_pct s : Forall hostc s -> contains c_pct s = false.
+Proof.
+  unfold contains. induction 1 as [|c s [Hc _] F IH]; [reflexivity|]. simpl. rewrite IH, orb_false_r.
+  now apply N.eqb_neq.
+Qed.
+
+Lemma index_pct25_none s : contains c_pct s = false -> index_pct25 s = None.
+Proof.
+  unfold contains. induction s as [|c s IH]; [reflexivity|]. intro H. simpl in H.
+  apply orb_false_iff in H as [A B]. cbn [index_pct25 prefixb].
+  rewrite N.eqb_sym in A. change (37 =? c) with (c_pct =? c). rewrite A. simpl. now rewrite (IH B).
+Qed.
+
+Lemma port_hostc p : valid_optional_port p = true -> Forall hostc p.
+Proof.
+  destruct p as [|c ds]; [constructor|]. simpl. intro H. apply andb_true_iff in H as [A B].
+  apply N.eqb_eq in A. subst c. constructor; [split; [discriminate | reflexivity]|].
+  rewrite forallb_forall in B. apply Forall_forall. intros d Hd. specialize (B d Hd).
+  unfold is_digit_c in B. apply andb_true_iff in B as [B1 B2]. apply N.leb_le in B1, B2.
+  split; [unfold c_pct; lia|]. intros _.
+  assert (G : implb ((48 <=? d) && (d <=? 57)) (host_plain d) = true).
+  { apply (forall_bytes 58 (fun d => implb ((48 <=? d) && (d <=? 57)) (host_plain d))); [vm_compute; reflexivity | lia]. }
+  assert (E : (48 <=? d) && (d <=? 57) = true) by (apply andb_true_iff; split; now apply N.leb_le).
+  rewrite E in G. exact G.
+Qed.
+
+Lemma parse_host_bracket_inv ip6 reg :
+  last_index_of 91 reg = Some 0%nat -> parse_host ip6 reg = Some reg ->
+  exists h port,
+    reg = 91 :: h ++ 93 :: port /\ contains 91 (h ++ 93 :: port) = false /\ contains 93 port = false /\
+    Forall hostc h /\ Forall hostc port /\ ip6 h = true /\ valid_optional_port port = true.
+Proof.
+  intros Eo. unfold parse_host. rewrite Eo.
+  destruct (last_index_of 93 reg) as [cb|] eqn:Ec; [|discriminate].
+  destruct (valid_optional_port (skipn (S cb) reg)) eqn:Vp; cbn [negb]; [|discriminate].
+  destruct (unescape_host (skipn (S cb) reg)) as [uport|] eqn:Ep; [|discriminate].
+  pose proof (last_index_of_split _ _ _ Eo) as So.
+  pose proof (last_index_of_split _ _ _ Ec) as Sc.
+  pose proof (last_index_of_after _ _ _ Ec) as A93.
+  destruct reg as [|x tl]; [discriminate|]. simpl in So. injection So as Hx. subst x.
+  apply last_index_of_head in Eo.
+  destruct cb as [|cb]; [simpl in Sc; discriminate|].
+  change (skipn (S (S cb)) (91 :: tl)) with (skipn (S cb) tl) in *.
+  change (firstn (S cb) (91 :: tl)) with (91 :: firstn cb tl) in *.
+  change (skipn 1 (91 :: firstn cb tl)) with (firstn cb tl).
+  remember (firstn cb tl) as hostname eqn:Ehn. remember (skipn (S cb) tl) as cport eqn:Ecp.
+  simpl in Sc. injection Sc as Sc.
+  match goal with |- match ?u with _ => _ end = _ -> _ => destruct u as [uh|] eqn:Eu end; [|discriminate].
+  destruct (ip6 uh) eqn:Hip; [|discriminate]. intro H. injection H as H.
+  assert (Lp : (length uport <= length cport)%nat) by now apply unescape_host_len.
+  assert (Lh : (length uh <= length hostname)%nat /\ (length uh = length hostname -> uh = hostname /\ Forall hostc hostname)).
+  { destruct (index_pct25 hostname) as [z|] eqn:Ez.
+    - destruct (unescape_host (firstn z hostname)) as [a|] eqn:Ea; [|discriminate].
+      destruct (unescape_zone (skipn z hostname)) as [c|] eqn:Ezn; [|discriminate].
+      injection Eu as <-.
+      pose proof (unescape_host_len _ _ Ea) as La. pose proof (unescape_zone_len _ _ Ezn) as Lc.
+      pose proof (firstn_skipn z hostname) as FS.
+      assert (LL : length hostname = (length (firstn z hostname) + length (skipn z hostname))%nat)
+        by (rewrite <- app_length, FS; reflexivity).
+      rewrite app_length. split; [lia|]. intro HL.
+      destruct (unescape_host_id _ _ Ea) as [-> Fa]; [lia|].
+      destruct (unescape_zone_id _ _ Ezn) as [-> Fc]; [lia|].
+      split; [exact FS|]. rewrite <- FS. now apply Forall_app.
+    - split; [now apply unescape_host_len | now apply unescape_host_id]. }
+  destruct Lh as [Lh Ih].
+  assert (LT : length (uh ++ 93 :: uport) = length (hostname ++ 93 :: cport)) by (rewrite H, <- Sc; reflexivity).
+  rewrite !app_length in LT. simpl in LT.
+  destruct Ih as [-> Fh]; [lia|].
+  destruct (unescape_host_id _ _ Ep) as [_ Fp]; [lia|].
+  exists hostname, cport. rewrite <- Sc. repeat split; auto.
+Qed.
+
+Theorem registry_bracket_iff ip6 reg :
+  contains 91 reg = true ->
+  (go_valid_registry ip6 reg = true <->
+   exists h port,
+     reg = 91 :: h ++ 93 :: port /\ contains 91 h = false /\ contains 91 port = false /\ contains 93 port = false /\
+     forallb hostcb h = true /\ ip6 h = true /\ valid_optional_port port = true).
+Proof.
+  intro Hb. split.
+  - intro H. unfold go_valid_registry in H. apply andb_true_iff in H as [_ Hh].
+    destruct (parse_host ip6 reg) as [h0|] eqn:P; [|discriminate].
+    destruct h0 as [|x0 h0]; [discriminate|]. apply str_eqb_spec in Hh. rewrite Hh in P.
+    assert (Eo : last_index_of 91 reg = Some 0%nat).
+    { unfold parse_host in P. destruct (last_index_of 91 reg) as [[|k]|] eqn:E; [reflexivity | discriminate |].
+      apply last_index_of_none in E. congruence. }
+    destruct (parse_host_bracket_inv ip6 reg Eo P) as (h & port & -> & C91 & C93 & Fh & Fp & Hip & Vp).
+    exists h, port. rewrite contains_app in C91. apply orb_false_iff in C91 as [C1 C2].
+    unfold contains in C2. simpl in C2.
+    repeat split; auto.
+    apply forallb_forall. intros c Hc. apply hostcb_hostc. rewrite Forall_forall in Fh. now apply Fh.
+  - intros (h & port & -> & C1 & C2 & C3 & Fh & Hip & Vp).
+    assert (Fhh : Forall hostc h).
+    { apply Forall_forall. intros c Hc. apply hostcb_hostc. rewrite forallb_forall in Fh. now apply Fh. }
+    pose proof (port_hostc port Vp) as Fp.
+    assert (Fall : Forall hostc (91 :: h ++ 93 :: port)).
+    { constructor; [split; [discriminate | reflexivity]|]. apply Forall_app. split; [exact Fhh|].
+      constructor; [split; [discriminate | reflexivity] | exact Fp]. }
+    destruct (Forall_hostc_not_special _ Fall) as (A & B & C & D).
+    unfold go_valid_registry. rewrite A, B, C, D. simpl.
+    assert (P : parse_host ip6 (91 :: h ++ 93 :: port) = Some (91 :: h ++ 93 :: port)).
+    { unfold parse_host.
+      assert (E0 : last_index_of 91 (91 :: h ++ 93 :: port) = Some 0%nat).
+      { apply last_index_of_head. rewrite contains_app, C1. unfold contains. simpl. exact C2. }
+      rewrite E0.
+      assert (E1 : last_index_of 93 (91 :: h ++ 93 :: port) = Some (S (length h))).
+      { change (91 :: h ++ 93 :: port) with ((91 :: h) ++ 93 :: port). now rewrite last_index_of_app. }
+      rewrite E1.
+      assert (S1 : skipn (S (S (length h))) (91 :: h ++ 93 :: port) = port).
+      { change (skipn (S (S (length h))) (91 :: h ++ 93 :: port)) with (skipn (S (length h)) (h ++ 93 :: port)).
+        rewrite skipn_app. rewrite skipn_all2 by lia. replace (S (length h) - length h)%nat with 1%nat by lia. reflexivity. }
+      assert (F1 : skipn 1 (firstn (S (length h)) (91 :: h ++ 93 :: port)) = h).
+      { change (firstn (S (length h)) (91 :: h ++ 93 :: port)) with (91 :: firstn (length h) (h ++ 93 :: port)).
+        rewrite firstn_app, firstn_all, Nat.sub_diag. simpl. now rewrite app_nil_r. }
+      rewrite S1, F1, Vp. simpl. rewrite (unescape_host_fix port Fp).
+      rewrite (index_pct25_none h (Forall_hostc_no_pct h Fhh)), (unescape_host_fix h Fhh), Hip. reflexivity. }
+    rewrite P. apply str_eqb_refl.
+Qed.
